@@ -113,6 +113,13 @@ structure Valid (p : Pkt) : Prop extends Shape p where
 structure Damaged (p : Pkt) : Prop extends Shape p where
   crc_bad : if p.haveCi then p.residual ≠ 0 else (p.residual &&& 0xFF) ≠ (p.residual >>> 8)
   no_repeat : p.haveRi = true → p.ri &&& 0x80 = 0
+/-- a packet of ours hit by a detectable transmission error that announces a repeat (RI bit 7) -/
+structure DamagedRep (p : Pkt) : Prop extends Shape p where
+  crc_bad : if p.haveCi then p.residual ≠ 0 else (p.residual &&& 0xFF) ≠ (p.residual >>> 8)
+  announces : p.haveRi = true ∧ p.ri &&& 0x80 ≠ 0
+
+/-- repeat indicator as the receiver reads it (0 without an RI byte) -/
+def riv (p : Pkt) : Nat := if p.haveRi then p.ri else 0
 end Pkt
 
 /-- DATA_LOST bit a receiver expecting continuity index `expected` (if any) owes for a packet with index `ci` -/
@@ -157,13 +164,15 @@ def ChecksumOk (buf : List Nat) : Prop :=
 inductive Tx
   | data (p : Pkt)          -- first transmission of a packet of ours, intact
   | rep (p : Pkt)           -- intact repeat of a packet (RI low nibble ≠ 0)
-  | damaged (p : Pkt)       -- packet of ours with a detectable transmission error
+  | damaged (p : Pkt)       -- packet of ours with a detectable transmission error, no repeat announced
+  | damagedRep (p : Pkt)    -- the same, but announcing a repeat (RI bit 7)
   | foreign (buf : List Nat)
 
 def Tx.bytes : Tx → List Nat
   | .data p => p.bytes
   | .rep p => p.bytes
   | .damaged p => p.bytes
+  | .damagedRep p => p.bytes
   | .foreign b => b
 
 /-- `t` is a legitimate transmission as seen by the receiver for `(channel, address)` -/
@@ -171,6 +180,7 @@ def Tx.Sent (channel address : Nat) : Tx → Prop
   | .data p => p.Valid ∧ p.channel = channel ∧ spaVal p.spa = address ∧ (p.haveRi = true → p.ri &&& 0xF = 0)
   | .rep p => p.Valid ∧ p.channel = channel ∧ spaVal p.spa = address ∧ p.haveRi = true ∧ p.ri &&& 0xF ≠ 0
   | .damaged p => p.Damaged ∧ p.channel = channel ∧ spaVal p.spa = address
+  | .damagedRep p => p.DamagedRep ∧ p.channel = channel ∧ spaVal p.spa = address
   | .foreign b => NotForUs channel address b
 
 /-- what the application must be handed, as (flags, bytes) per callback: every intact first
@@ -184,7 +194,39 @@ def expected (fl : Nat) (eci : Option Nat) : List Tx → List (Nat × List Nat)
       expected ((fl ||| lostFlag eci p.ci) &&& 0xFFFFFFFE) (some (p.ci + 1)) r
   | .rep _ :: r => expected fl eci r
   | .damaged _ :: r => expected (fl ||| 1) none r
+  | .damagedRep _ :: r => expected fl eci r
   | .foreign _ :: r => expected fl eci r
+
+/-- what an intact packet with repeat indicator `riv` does to a receiver (flag word `fl`, expected
+    CI `eci`, awaited repeat indicator `aw`); `k` continues with the rest of the transmission -/
+def intactR (sticky : Bool) (riv ci dep : Nat) (data : List Nat) (fl : Nat) (eci aw : Option Nat)
+    (k : Nat → Option Nat → Option Nat → List (Nat × List Nat)) : List (Nat × List Nat) :=
+  let emit := fun (f : Nat) (e w : Option Nat) =>
+    (f ||| lostFlag e ci ||| dep, data) :: k ((f ||| lostFlag e ci) &&& 0xFFFFFFFE) (some (ci + 1)) w
+  match aw with
+  | none => if riv &&& 0xF ≠ 0 then k fl eci none else emit fl eci none
+  | some a =>
+    if (riv ^^^ a) &&& 0xF ≠ 0 then
+      (if riv &&& 0xF ≠ 0 then k (fl ||| 1) none none else emit (fl ||| 1) none none)
+    else emit fl eci (if sticky then some a else none)
+
+/-- `expected` with the repeat mechanism (6.5.x RI): a damaged packet that announces a repeat makes
+    the receiver await repeat number RI+1; the awaited repeat, arriving intact, is delivered in place
+    of the damaged packet and nothing is lost; any other intact packet of ours while a repeat is
+    awaited means the repeats were lost (DATA_LOST), a first transmission is then delivered, a
+    repeat discarded.  Without an awaited repeat, repeats are discarded.
+    `sticky = false` is the intended receiver: once the awaited repeat arrived it awaits nothing.
+    `sticky = true` describes a receiver that keeps awaiting it (libzvbi before the repair
+    `fixes/idl-repeat-recovered.diff`), which flags the next packet although nothing was lost. -/
+def expectedR (sticky : Bool) : Nat → Option Nat → Option Nat → List Tx → List (Nat × List Nat)
+  | _, _, _, [] => []
+  | fl, eci, aw, .data p :: r =>
+    intactR sticky p.riv p.ci (p.ial &&& 8) p.data fl eci aw (fun f e w => expectedR sticky f e w r)
+  | fl, eci, aw, .rep p :: r =>
+    intactR sticky p.riv p.ci (p.ial &&& 8) p.data fl eci aw (fun f e w => expectedR sticky f e w r)
+  | fl, _, _, .damaged _ :: r => expectedR sticky (fl ||| 1) none none r
+  | fl, eci, _, .damagedRep p :: r => expectedR sticky fl eci (some (p.ri + 1)) r
+  | fl, eci, aw, .foreign _ :: r => expectedR sticky fl eci aw r
 
 /-- the sender: fill in the two CRC bytes for the given fields -/
 def mkPacket (channel ft ial : Nat) (spa : List Nat) (ri ci : Nat) (data : List Nat) (dummy : Nat)
